@@ -25,6 +25,11 @@ A_REC = ("A-REC: a nested write() issued while a Full master is being written ei
          "property itself, used inductively) or succeeds having only appended to the buffer and not closed masters opened before it")
 
 
+def writer_bodies_list(prog):
+    return [b for b in prog.bodies.values() if b.promoted_index is None and b.crate == "ebml_iterable" and
+            (b.path.startswith(WRITER + "::") or (b.parent or "").startswith(WRITER + "::"))]
+
+
 def writer_fields(prog):
     info = prog.adts.get(WRITER)
     if info is None:
@@ -150,7 +155,23 @@ class WriterRun:
             return
         st = call.st
         cur = st.ghost.get(w, "clean")
-        self.event(call, "mutate", (w, op))
+        detail = (w, op)
+        if w == "wb":
+            if op == "push":
+                v = kw.get("value")
+                detail = (w, op, (v.lo if isinstance(v, Int) and v.is_const() else None))
+            elif op == "append" and kw.get("slice") is not None:
+                sa = kw["slice"]
+                n = sa.len.lo if isinstance(sa.len, Int) and sa.len.is_const() else None
+                bs = None
+                if n is not None and all(isinstance(sa.cells.get(i), Int) and sa.cells[i].is_const() for i in range(n)):
+                    bs = tuple(sa.cells[i].lo for i in range(n))
+                detail = (w, op, ("slice", n, bs))
+            elif op == "append" and kw.get("iter") is not None:
+                it = kw["iter"]
+                r = getattr(it, "remaining", None)
+                detail = (w, op, ("iter", (r.lo, r.hi) if isinstance(r, Int) else None))
+        self.event(call, "mutate", detail)
         if op in ("append", "push"):
             if cur in ("clean", "appended"):
                 st.ghost[w] = "appended"
@@ -268,6 +289,8 @@ class WriterRun:
             if body.name == "write_advanced":
                 sbl = Enum("std::option::Option", {0: ()}) if self.size_len is None else Enum("std::option::Option", {1: (Int.const(self.size_len, 64, False),)})
                 st.cells[frame.cell(3)] = Struct("tag_writer::WriteOptions", [sbl, Int.const(1 if self.unknown else 0, 1, False)])
+            if body.name in ("start_unknown_size_tag", "start_tag"):
+                st.cells[frame.cell(2)] = Int.top(64, False)
             if body.name == "end_tag" and self.stack_elem is not None:
                 # closing the innermost master: same id
                 idc = ("G", "id")
